@@ -25,7 +25,8 @@ ASSUMPTIONS = [
 ]
 
 TOKENS = ["foo", "foobar", "foo-x", "bar"]
-CLASS_INITS = [None, "foo", "foo bar", " foo  foobar ", "bar foo bar", "foo\tbar\nfoo-x", ["H", "foo"]]
+CLASS_INITS = [None, "foo", "foo bar", " foo  foobar ", "bar foo bar", "foo\tbar\nfoo-x", ["H", "foo"],
+               ["H", "a&amp;b foo"]]
 STYLE_OK = ["a:b;", "c:d;", ["H", "e:f;"]]
 STYLE_BAD = ["a:b", "a:b; ", ""]
 STYLE_INITS = [None, "x:y;"]
@@ -64,6 +65,7 @@ def class_step(hist):
     from htmltools import Tag
     tag = None
     model = None       # None = attribute absent, else list of tokens
+    trusted = False    # the value is (or has been merged into) HTML(): its tokens are markup, written verbatim
     viols = []
     changed = 0
     for k, op in enumerate(hist):
@@ -75,10 +77,12 @@ def class_step(hist):
                 import copy as _copy
                 tag = _copy.copy(tag) if op[2] == "copy" else tag.tagify()
             model = None if op[1] is None else (op[1][1] if isinstance(op[1], list) else op[1]).split()
+            trusted = isinstance(op[1], list)
         elif op[0] == "add":
             t, prepend = op[1], op[2]
             old = list(model or [])
             tval = bv(t)
+            trusted = trusted or isinstance(t, list)
             t = t[1] if isinstance(t, list) else t
             r = tag.add_class(tval, prepend=prepend)
             if r is not tag:
@@ -125,9 +129,12 @@ def class_step(hist):
         out = tag.get_html_string()
         m = _CLASS_RE.search(out)
         shown = None if m is None else __import__("html").unescape(m.group(1)).split()
-        if shown != model and not v:
+        denoted = model if (model is None or not trusted) else [__import__("html").unescape(x) for x in model]
+        if model is None:
+            trusted = False
+        if shown != denoted and not v:
             v.append(("class-op:stale-rendering", f"get_html_string() after {op} shows class tokens {shown}, "
-                      f"the tag holds {model}", {"observed": out}))
+                      f"the value held denotes {denoted} (HTML() values are written verbatim, plain ones escaped)", {"observed": out}))
         if v:
             if last:
                 viols = v
@@ -137,7 +144,7 @@ def class_step(hist):
     # in that do not have the same futures (e.g. split()/join() behave differently), so they must not
     # be merged
     key = None if viols else ("cls", type(tag.attrs.get("class")).__name__, type(tag.attrs).__name__,
-                              hist[0][2] if len(hist[0]) > 2 else "", tuple(model) if model is not None else None)
+                              hist[0][2] if len(hist[0]) > 2 else "", trusted, tuple(model) if model is not None else None)
     if model is not None and len(model) > 7:
         key = None
     return {"key": key, "viol": viols, "nontrivial": len(hist) >= 3 and changed >= 1, "outcome": key}
